@@ -206,11 +206,13 @@ func applySplitting(ssaFunc *ssa.Function, obfRand *mathrand.Rand) bool {
 		setBlock(instr, newBlock)
 	}
 
-	// Fix preds for ssa.Phi working
-	for _, succ := range targetBlock.Succs {
-		for i, pred := range succ.Preds {
+	// Fix preds for ssa.Phi working. A block can list targetBlock as a predecessor
+	// without being one of its successors anymore: addTrashBlockMarkers redirects
+	// an edge through its own blocks and leaves the old successor's Preds alone.
+	for _, block := range ssaFunc.Blocks {
+		for i, pred := range block.Preds {
 			if pred == targetBlock {
-				succ.Preds[i] = newBlock
+				block.Preds[i] = newBlock
 			}
 		}
 	}
